@@ -10,6 +10,16 @@ CLAIMED = {
         technique="TLA+ model checking (TLC) + exhaustive spec->code replay on exact arithmetic + TLC trace validation of float runs",
         design_ref="4/C19",
     ),
+    "C27": dict(
+        level="fault_enumeration",
+        text="The file-system operations of the real save_simulation are recorded (Python audit events) and become the protocol constant of Autosave.tla; "
+             "TLC explores a crash between any two operations and mid-write and predicts which crash points keep a loadable snapshot under the advertised name; "
+             "every crash point of the 2nd and 3rd autosave is then injected into real TDVP / DMRG / noisy runs and MPSBackend.resume must succeed from the advertised file.",
+        note="POSIX-like file model (atomic rename, partial file until closed, no power-loss reordering); file operations observed via audit events open/os.rename/os.remove; "
+             "mid-write crash injected while the snapshot is pickled.",
+        technique="TLA+ model checking of the recorded save protocol (TLC) + exhaustive real fault injection at every crash point",
+        design_ref="4/C27",
+    ),
 }
 PENDING_REASON = "check not built yet in this round (planned in DESIGN.md section 4); not claimed until it runs"
 NOT_APPLICABLE = {}
